@@ -42,7 +42,7 @@ ASSUMPTIONS = [
 TIMEOUT = {"quick": 40, "thorough": 120}
 DEADLINE = {"quick": 110, "thorough": 1500}
 MIN_DECIDING = {"quick": 60, "thorough": 600}
-NDIRECT = {"quick": 150, "thorough": 2600}
+NDIRECT = {"quick": 140, "thorough": 2400}
 NPROG = {"quick": 40, "thorough": 700}
 
 
